@@ -128,16 +128,34 @@ def make_call(rng, entry):
                           {'kind': 'delim', 'delims': [' ']}])
         tok = dict(tok, return_set=True)
     L, R = make_tables(rng, tok['kind'] == 'qgram')
-    call = {'ltable': L, 'rtable': R, 'l_key': 'lkey', 'r_key': 'rkey', 'l_attr': 'ljoin',
-            'r_attr': 'rjoin', 'tok': tok, 'n_jobs': rng.choice([1, 1, 2, 3]),
-            'l_out_attrs': pick_attrs(rng, L, 'lkey', 'ljoin'),
-            'r_out_attrs': pick_attrs(rng, R, 'rkey', 'rjoin')}
+    lj, rj = 'ljoin', 'rjoin'
+    if rng.random() < 0.12:
+        # join attributes named like names the library uses itself
+        lj, rj = rng.choice([('index', 'index'), ('_id', '_sim_score'), ('level_0', '_id'), ('_sim_score', 'index')])
+        for spec, old_, new_ in ((L, 'ljoin', lj), (R, 'rjoin', rj)):
+            spec['cols'] = [new_ if c == old_ else c for c in spec['cols']]
+            spec['data'][new_] = spec['data'].pop(old_)
+            spec['dtypes'][new_] = spec['dtypes'].pop(old_)
+    call = {'ltable': L, 'rtable': R, 'l_key': 'lkey', 'r_key': 'rkey', 'l_attr': lj,
+            'r_attr': rj, 'tok': tok, 'n_jobs': rng.choice([1, 1, 2, 3]),
+            'l_out_attrs': pick_attrs(rng, L, 'lkey', lj),
+            'r_out_attrs': pick_attrs(rng, R, 'rkey', rj)}
+    if rng.random() < 0.2:
+        call['omit_defaults'] = True
+    if rng.random() < 0.06:
+        call['out_attrs_as'] = 'tuple'
     r = rng.random()
+    if lj != 'ljoin':
+        # an empty prefix would ask for an output column named exactly like the library's own
+        # '_id' / '_sim_score': a name collision the caller requested, not a result to judge
+        r = 1.0 if r < 0.35 and rng.random() < 0.5 else r + 1.0
+        if r == 1.0:
+            call['l_out_prefix'], call['r_out_prefix'] = rng.choice([('left.', 'right.'), ('A_', 'B_'), ('x', 'xx')])
     if r < 0.25:
         call['l_out_prefix'], call['r_out_prefix'] = rng.choice([('left.', 'right.'), ('A_', 'B_'), ('', 'r_'), ('x', 'xx'), ('l_', 'l_r_')])
     elif r < 0.35:
         call['l_out_prefix'] = call['r_out_prefix'] = rng.choice(['', 't_'])   # names are disjoint
-    if rng.random() < 0.15:
+    if rng.random() < 0.15 and lj == 'ljoin':
         # both tables use the SAME column names for their attributes; the left key's name is an
         # ordinary attribute of the right table and vice versa; one list object is passed for both
         # l_out_attrs and r_out_attrs (as user code with a shared constant does)
